@@ -278,6 +278,17 @@ def _trait_call(ex, st, ty, tr, full_tr, meth, args, callee):
         r = and_(eq(a.d, b.d), or_(eq(a.d, 0), inner))
         return sx.Bool(r if meth == "eq" else not_(r))
 
+    if tr == "PartialOrd" and meth in ("lt", "le", "gt", "ge") and len(dargs) == 2 \
+            and all(isinstance(a, sx.Enum) and a.name == "Option" for a in dargs):
+        a, b = dargs
+        pa, pb = a.v.get(1, [None])[0], b.v.get(1, [None])[0]
+        if (pa is None or isinstance(pa, sx.Int)) and (pb is None or isinstance(pb, sx.Int)):
+            # None < Some(_); Some(x) vs Some(y) by value
+            xa = pa.t if pa is not None else 0
+            xb = pb.t if pb is not None else 0
+            both = and_(eq(a.d, 1), eq(b.d, 1))
+            f = {"lt": lt, "le": le, "gt": gt, "ge": ge}[meth]
+            return sx.Bool(ite(both, f(xa, xb), f(a.d, b.d)))
     if tr in ("From", "Into") and meth in ("from", "into"):
         a = dargs[0]
         mt = re.match(r"^(?:From|Into)<(.+)>$", full_tr.strip())
